@@ -1,5 +1,6 @@
 //@ kernel envs serves=C03
-//@ item src/subrule.rs impl SubRule members=match_contexts_and_exceptions
+//@ item src/subrule.rs impl SubRule members=match_before_env,match_after_env,match_contexts_and_exceptions,context_match
+//@ stub SubRule::context_match
 
 //@ pre
 // ---- R6: everything the combination logic calls is opaque; each environment half is an arbitrary
@@ -20,8 +21,31 @@ pub uninterp spec fn ctx_of(sr: SubRule) -> Seq<(Seq<Item>, Seq<Item>)>;
 pub uninterp spec fn exc_of(sr: SubRule) -> Seq<(Seq<Item>, Seq<Item>)>;
 pub uninterp spec fn wrev(w: Word) -> Word;
 pub uninterp spec fn prev(p: SegPos, w: Word) -> SegPos;
-pub uninterp spec fn before_spec(sr: SubRule, states: Seq<Item>, word_rev: Word, pos: SegPos, ins: bool, is_context: bool) -> Result<bool, RuleRuntimeError>;
-pub uninterp spec fn after_spec(sr: SubRule, states: Seq<Item>, word: Word, pos: SegPos, ins: bool, inc: bool, is_context: bool) -> Result<bool, RuleRuntimeError>;
+pub uninterp spec fn pinc(p: SegPos, w: Word) -> SegPos;
+/// one element of an environment half (SubRule::context_match): (matched?, state index afterwards, position afterwards)
+pub uninterp spec fn step_spec(sr: SubRule, states: Seq<Item>, si: int, w: Word, p: SegPos, forwards: bool, ins: bool) -> (Result<bool, RuleRuntimeError>, int, SegPos);
+/// an environment half from element `si` on: every element must match, in sequence, each starting where the previous one
+/// stopped.  A context stops at the first element that fails; an exception goes on through all elements (a failed
+/// element does not advance the position) and an EMPTY exception half never matches.
+pub open spec fn scan(sr: SubRule, states: Seq<Item>, si: int, w: Word, p: SegPos, forwards: bool, ins: bool, is_context: bool, acc: bool) -> Result<bool, RuleRuntimeError>
+    decreases states.len() - si
+{
+    if si < 0 || si >= states.len() { Ok(acc) } else {
+        let st = step_spec(sr, states, si, w, p, forwards, ins);
+        match st.0 {
+            Err(e) => Err(e),
+            Ok(m) => if st.1 < si { Ok(acc) } else if !m && is_context { Ok(false) } else if st.1 + 1 >= states.len() { Ok(acc && m) }
+                else { scan(sr, states, st.1 + 1, w, st.2, forwards, ins, is_context, acc && m) },
+        }
+    }
+}
+pub open spec fn acc0(states: Seq<Item>, is_context: bool) -> bool { if is_context { true } else { states.len() != 0 } }
+pub open spec fn before_spec(sr: SubRule, states: Seq<Item>, word_rev: Word, pos: SegPos, ins: bool, is_context: bool) -> Result<bool, RuleRuntimeError> {
+    scan(sr, states, 0, word_rev, pinc(pos, word_rev), false, ins, is_context, acc0(states, is_context))
+}
+pub open spec fn after_spec(sr: SubRule, states: Seq<Item>, word: Word, pos: SegPos, ins: bool, inc: bool, is_context: bool) -> Result<bool, RuleRuntimeError> {
+    scan(sr, states, 0, word, if inc { pinc(pos, word) } else { pos }, true, ins, is_context, acc0(states, is_context))
+}
 pub open spec fn pairs_view(v: Seq<(&Vec<Item>, &Vec<Item>)>) -> Seq<(Seq<Item>, Seq<Item>)> {
     Seq::new(v.len(), |i: int| ((*v[i].0)@, (*v[i].1)@))
 }
@@ -41,20 +65,14 @@ impl Word {
 impl SegPos {
     #[verifier::external_body]
     pub(crate) fn reversed(&self, word: &Word) -> (r: Self) ensures r == prev(*self, *word) { unimplemented!() }
+    #[verifier::external_body]
+    pub(crate) fn increment(&mut self, word: &Word) ensures *final(self) == pinc(*old(self), *word) { unimplemented!() }
 }
 impl SubRule {
     #[verifier::external_body]
     fn get_contexts(&self) -> (r: Vec<(&Vec<Item>, &Vec<Item>)>) ensures pairs_view(r@) == ctx_of(*self) { unimplemented!() }
     #[verifier::external_body]
     fn get_exceptions(&self) -> (r: Vec<(&Vec<Item>, &Vec<Item>)>) ensures pairs_view(r@) == exc_of(*self) { unimplemented!() }
-    #[verifier::external_body]
-    fn match_before_env(&self, states: &[Item], word_rev: &Word, pos: &SegPos, ins_match_before: bool, is_context: bool) -> (r: Result<bool, RuleRuntimeError>)
-        ensures r == before_spec(*self, states@, *word_rev, *pos, ins_match_before, is_context)
-    { unimplemented!() }
-    #[verifier::external_body]
-    fn match_after_env(&self, states: &[Item], word: &Word, pos: &SegPos, ins_match_before: bool, inc: bool, is_context: bool) -> (r: Result<bool, RuleRuntimeError>)
-        ensures r == after_spec(*self, states@, *word, *pos, ins_match_before, inc, is_context)
-    { unimplemented!() }
 }
 //@ end
 
@@ -126,4 +144,46 @@ pub open spec fn combine(sr: SubRule, w: Word, sp: SegPos, ep: SegPos, inc: bool
 //@ proof_before_tail SubRule::match_contexts_and_exceptions
     assert(/*#envs.exceptions_scanned C03*/ any_env(*self, exc_of(*self), 0, *word, start_pos, end_pos, inc, false) == Ok::<bool, RuleRuntimeError>(is_expt_match));
     assert(ctx_of(*self).len() == cs.len());
+//@ end
+
+// =================================================================== the two environment halves
+//@ contract SubRule::context_match ret=r
+    requires *old(state_index) < states@.len(),
+    ensures (r, *final(state_index) as int, *final(pos)) == step_spec(*self, states@, *old(state_index) as int, *word, *old(pos), forwards, ins_match_before),
+        // ASSUMED about the opaque element matcher: it never moves the state index backwards or past the end of the list
+        *old(state_index) <= *final(state_index) <= states@.len(), *final(state_index) < usize::MAX,
+//@ end
+//@ attr SubRule::match_before_env
+#[verifier::loop_isolation(false)]
+#[verifier::allow_complex_invariants]
+//@ end
+//@ attr SubRule::match_after_env
+#[verifier::loop_isolation(false)]
+#[verifier::allow_complex_invariants]
+//@ end
+//@ contract SubRule::match_before_env ret=r
+    ensures /*#envs.before_half_every_element_in_sequence C03*/ r == before_spec(*self, states@, *word_rev, *pos, ins_match_before, is_context),
+//@ end
+//@ contract SubRule::match_after_env ret=r
+    ensures /*#envs.after_half_every_element_in_sequence C03*/ r == after_spec(*self, states@, *word, *pos, ins_match_before, inc, is_context),
+//@ end
+//@ loop_ghost_before SubRule::match_before_env 0
+    let ghost p0 = start_pos;
+//@ end
+//@ loop SubRule::match_before_env 0
+    invariant_except_break
+        si <= states@.len() + 1, is_context ==> is_match,
+        /*#envs.inv.before_remaining_elements C03*/ scan(*self, states@, 0, *word_rev, p0, false, ins_match_before, is_context, acc0(states@, is_context))
+            == scan(*self, states@, si as int, *word_rev, start_pos, false, ins_match_before, is_context, is_match),
+    decreases states@.len() + 1 - si,
+//@ end
+//@ loop_ghost_before SubRule::match_after_env 0
+    let ghost p0 = start_pos;
+//@ end
+//@ loop SubRule::match_after_env 0
+    invariant_except_break
+        si <= states@.len() + 1, is_context ==> is_match,
+        /*#envs.inv.after_remaining_elements C03*/ scan(*self, states@, 0, *word, p0, true, ins_match_before, is_context, acc0(states@, is_context))
+            == scan(*self, states@, si as int, *word, start_pos, true, ins_match_before, is_context, is_match),
+    decreases states@.len() + 1 - si,
 //@ end
